@@ -59,7 +59,7 @@ func c04Map(name string, maxEntries int, depth int) *c04V {
 		if i > 0 && c04LaterDepth >= 0 {
 			depth = c04LaterDepth // entries after the first may be kept shallower to bound the product
 		}
-		k := verifStrN(name+"_k"+verifItoa(int64(i)), 1, "ac")
+		k := c04Key(name + "_k" + verifItoa(int64(i)))
 		for _, prev := range m.keys {
 			verifAssume(!verifEqStr(prev, k))
 		}
@@ -76,7 +76,7 @@ func c04Yaml(v *c04V) *yaml.Node {
 	case 1:
 		m := vMap()
 		for i, k := range v.keys {
-			m.Content = append(m.Content, vStr(k), c04Yaml(v.items[i]))
+			m.Content = append(m.Content, vS(c04KeyTag(), k), c04Yaml(v.items[i]))
 		}
 		return m
 	default:
@@ -98,7 +98,7 @@ func c04Dump(v *c04V) string {
 			if i > 0 {
 				s += ", "
 			}
-			s += "<!!str " + k + ">: " + c04Dump(v.items[i])
+			s += "<" + c04KeyTag() + " " + k + ">: " + c04Dump(v.items[i])
 		}
 		return s + "}"
 	default:
@@ -220,6 +220,42 @@ func VerifC04MergeMixed() {
 
 var c04LaterDepth = -1
 
+// c04KeyRange: the byte range map keys are drawn from ("ac" normally; VerifC04MergeOddKeys widens it to all of
+// '*'..'c': glob characters, digits, punctuation, upper-case letters)
+var c04KeyRange = "ac"
+
+// c04IntKeys: keys are integers (tag !!int) in one of YAML's spellings instead of one-byte strings
+var c04IntKeys bool
+
+func c04Key(name string) string {
+	if c04IntKeys {
+		return verifConcreteStr(verifPick(name, "5", "0x1F", "0o17", "1_0", "-3"))
+	}
+	return verifStrN(name, 1, c04KeyRange)
+}
+
+func c04KeyTag() string {
+	if c04IntKeys {
+		return "!!int"
+	}
+	return "!!str"
+}
+
+// VerifC04MergeIntKeys: integer keys in decimal, hex, octal and underscore spelling (the same spelling on both sides
+// is the same key; the merge must not add a second, re-spelled key).
+func VerifC04MergeIntKeys() {
+	c04IntKeys = true
+	c04MergeBody(1, 0)
+	c04IntKeys = false
+}
+
+// VerifC04MergeOddKeys: one entry per side, scalar values, keys over '*'..'c'.
+func VerifC04MergeOddKeys() {
+	c04KeyRange = "*c"
+	c04MergeBody(1, 0)
+	c04KeyRange = "ac"
+}
+
 func c04MergeBody(entries, depth int) {
 	a := c04Map("a", entries, depth)
 	b := c04Map("b", entries, depth)
@@ -250,6 +286,20 @@ func c04MergeBody(entries, depth int) {
 		fl += "d"
 	}
 	label := "flags=" + fl
+	for _, k := range b.keys {
+		if !c04IntKeys && verifConcreteBool(k[0] == '*' || k[0] == '?') {
+			label += " right-key-has-glob-character"
+			break
+		}
+	}
+	if c04IntKeys {
+		for _, k := range b.keys {
+			if k != "5" && k != "-3" {
+				label += " right-key-is-a-non-decimal-integer"
+				break
+			}
+		}
+	}
 	want, open := c04RefMerge(a, b, plus, onlyExisting, onlyNew, deep)
 	// operands must read as before, whatever the flags
 	verifAssert(verifEqStr(vDump(doc.Content[1]), beforeA), "C04/lhs-operand-changed "+label)
